@@ -171,7 +171,7 @@ def part_header(ctx, quick):
         # H1: every combination of the EDNS arguments of make_query, followed by <= 1 of wire / make_response / is_response
         hists += g("h1.cfg", qsel="full", maxc=1, ops=["wire", "make_response", "is_response"], pay=[1232] if FAST else [512, 1232])
         # H2: every history of <= 2 calls of any kind over small alphabets, 10 different queries
-        hists += g("h2.cfg", ext=[18], z=[32769], qsel="few" if FAST else "mid") if quick else g("h2.cfg", pay=[512, 1232], optseqs="GenOptionFew")
+        hists += g("h2.cfg", ext=[18], z=[32769], qsel="few") if quick else g("h2.cfg", optseqs="GenOptionFew")
         # H3: query -> (sign / DO) -> response -> wire -> probe, larger alphabets
         hists += g("h3.cfg", maxc=3, minc=3, order="OrderRespWire", pay=[512, 1232, 4096], optseqs="GenOptionSeqs")
         # H4: every rcode -1..4096 from a message without and with EDNS, then the wire round trip
@@ -200,6 +200,7 @@ def part_header(ctx, quick):
                       {"part": "header", "hist": jobmap[tr["tid"]], "line": line, "trace": tr})
     # drift (not a verdict): responses judged a second time with "CD copied" (RFC 4035 3.2.2) and "DO copied" (RFC 3225 3)
     resp = [tr for tr in traces if any(e["op"] == "make_response" and e["res"] == "ok" for e in tr["ev"])]
+    resp = resp[::max(1, len(resp) // (4000 if quick else 40000))]   # an even sample over all generators
     if resp and not ctx.replay_case and not rejects and not FAST:
         before = ctx.traces
         bad = ctx.validate("Trace_MsgHeader", "Trace_MsgHeader_strict.cfg", resp)
